@@ -349,11 +349,72 @@ static int run_hist(const std::string& kind, unsigned seed, int n, int threads, 
     return 0;
 }
 
+
+// ---------------------------------------------------------------------------------------------
+// tear: writers rewrite 16 keys of a capacity-4 container with self-identifying 768-byte values (every word =
+// key << 32 | sequence number) while readers look the keys up.  Whatever the interleaving, a lookup of k may only
+// report a value that was written under k, in one piece: anything else (a torn value, another key's value) is a
+// result no sequential order of the calls can produce.  Public API only, no clock dependence (TTL far away).
+// ---------------------------------------------------------------------------------------------
+static int run_tear(const std::string& kind, int n)
+{
+    Cfg g;
+    g.kind    = kind;
+    g.cap     = 4;
+    g.ttl_ms  = 1000000;
+    g.tick_ms = 1;
+    g.ts      = true;
+    g.val     = 'w';
+    auto                  c = make(g);
+    std::atomic<int>      go{0};
+    std::atomic<uint64_t> finds{0}, hits{0}, torn{0}, foreign{0};
+    std::atomic<uint64_t> ex_key{0}, ex_val{0};
+    const int             writers = 3, readers = 3;
+    auto writer = [&](int tid) {
+        go.fetch_add(1);
+        while (go.load() < writers + readers) {}
+        std::mt19937 r(77u + tid);
+        for (int i = 0; i < n; ++i)
+        {
+            uint64_t k = r() % 16;
+            if (r() % 8 == 0) c->erase(k);
+            else c->insert(k, (k << 32) | (uint64_t)(i & 0x7fffffff), 3, 1000000);
+        }
+    };
+    auto reader = [&](int tid) {
+        go.fetch_add(1);
+        while (go.load() < writers + readers) {}
+        std::mt19937 r(991u + tid);
+        uint64_t     f = 0, h = 0;
+        for (int i = 0; i < n; ++i)
+        {
+            uint64_t k = r() % 16;
+            auto     v = c->find(k, (r() % 2) == 0);
+            ++f;
+            if (!v.has_value()) continue;
+            ++h;
+            if (*v == ~uint64_t{0}) { torn.fetch_add(1); ex_key = k; ex_val = *v; }
+            else if ((*v >> 32) != k) { foreign.fetch_add(1); ex_key = k; ex_val = *v; }
+        }
+        finds += f;
+        hits += h;
+    };
+    std::vector<std::thread> ts;
+    for (int i = 0; i < writers; ++i) ts.emplace_back(writer, i);
+    for (int i = 0; i < readers; ++i) ts.emplace_back(reader, i);
+    for (auto& t : ts) t.join();
+    std::printf("tear %s finds %lu hits %lu torn %lu foreign %lu example_key %lu example_value %lu\n", kind.c_str(),
+                (unsigned long)finds.load(), (unsigned long)hits.load(), (unsigned long)torn.load(), (unsigned long)foreign.load(),
+                (unsigned long)ex_key.load(), (unsigned long)ex_val.load());
+    return 0;
+}
+
 } // namespace hv
 
 int main(int argc, char** argv)
 {
     if (argc >= 4 && !std::strcmp(argv[1], "tsan")) return hv::run_tsan(argv[2], std::atoi(argv[3]));
+    if (argc >= 4 && !std::strcmp(argv[1], "tear")) return hv::run_tear(argv[2], std::atoi(argv[3]));
     if (argc >= 9 && !std::strcmp(argv[1], "hist"))
         return hv::run_hist(argv[2], (unsigned)std::atoi(argv[3]), std::atoi(argv[4]), std::atoi(argv[5]), std::atoi(argv[6]), (size_t)std::atoi(argv[7]), argv[8]);
     std::fprintf(stderr, "usage: conc tsan <kind> <iters> | conc hist <kind> <seed> <n> <threads> <ops> <cap> <scenario>\n");
